@@ -182,3 +182,24 @@ package types
 //@ loop 2 invariant matchedBidsOK(res, allowedBidders, matchPrice) && (matched == (len(res.MatchedBids) > 0)) && ((len(res.MatchedBids) > 0) == (res.MatchedAmount > 0))
 //@ loop 2 invariant forall(w, string, cntUpTo(w, prices, bidsByPrice, idx1, matchPrice) >= 0 && cntGroup(w, bidsByPrice[decStr(price)], idx) >= 0 && demUpTo(w, prices, bidsByPrice, idx1, matchPrice) >= 0 && demGroup(w, bidsByPrice[decStr(price)], idx, matchPrice) >= 0)
 //@ loop 2 invariant forall(w, string, has(CAP, w) ==> matchedOf(res, w) == min(CAP[w], demUpTo(w, prices, bidsByPrice, idx1, matchPrice) + demGroup(w, bidsByPrice[decStr(price)], idx, matchPrice)) && payBounds(res, w, matchPrice, cntUpTo(w, prices, bidsByPrice, idx1, matchPrice) + cntGroup(w, bidsByPrice[decStr(price)], idx)))
+
+// GenesisState.Validate (C15) accepts exactly the genesis states whose objects are individually valid and whose store
+// keys are pairwise distinct: (auction id, bidder), (auction id, release time), (auction id, bid id), auction id.
+//@ func (GenesisState).Validate
+//@ requires forall(j, int, 0 <= j && j < len(gs.AuctionList) ==> len(gs.AuctionList[j].EndTimes) >= 1 && timesSane(gs.AuctionList[j].VestingSchedules))
+//@ ensures [C15] accepts-exactly-valid-genesis-states: (result == nil) == genesisValid(gs)
+//@ loop 0 invariant 0 <= idx && idx <= len(gs.AllowedBidderList) && forall(j, int, 0 <= j && j < idx ==> abValid(gs.AllowedBidderList[j]))
+//@ loop 0 invariant forall(i, int, forall(j, int, 0 <= i && i < j && j < idx ==> gs.AllowedBidderList[i].AuctionId != gs.AllowedBidderList[j].AuctionId || gs.AllowedBidderList[i].Bidder != gs.AllowedBidderList[j].Bidder))
+//@ loop 0 invariant forall(k, string, has(allowedBidderIndexMap, k) == exists(j, int, 0 <= j && j < idx && k == sprint2(gs.AllowedBidderList[j].AuctionId, gs.AllowedBidderList[j].Bidder)))
+//@ loop 1 invariant 0 <= idx && idx <= len(gs.VestingQueueList) && forall(j, int, 0 <= j && j < idx ==> vqValid(gs.VestingQueueList[j]))
+//@ loop 1 invariant forall(i, int, forall(j, int, 0 <= i && i < j && j < idx ==> gs.VestingQueueList[i].AuctionId != gs.VestingQueueList[j].AuctionId || gs.VestingQueueList[i].ReleaseTime != gs.VestingQueueList[j].ReleaseTime))
+//@ loop 1 invariant forall(k, string, has(vestingQueueIndexMap, k) == exists(j, int, 0 <= j && j < idx && k == sprintII(gs.VestingQueueList[j].AuctionId, gs.VestingQueueList[j].ReleaseTime)))
+//@ loop 1 invariant genesisValidAB(gs)
+//@ loop 2 invariant 0 <= idx && idx <= len(gs.BidList) && forall(j, int, 0 <= j && j < idx ==> bidValid(gs.BidList[j]))
+//@ loop 2 invariant forall(i, int, forall(j, int, 0 <= i && i < j && j < idx ==> gs.BidList[i].AuctionId != gs.BidList[j].AuctionId || gs.BidList[i].Id != gs.BidList[j].Id))
+//@ loop 2 invariant forall(k, string, has(bidIdMap, k) == exists(j, int, 0 <= j && j < idx && k == sprintII(gs.BidList[j].AuctionId, gs.BidList[j].Id)))
+//@ loop 2 invariant genesisValidAB(gs) && genesisValidVQ(gs)
+//@ loop 3 invariant 0 <= idx && idx <= len(gs.AuctionList) && forall(j, int, 0 <= j && j < idx ==> auctionValid(gs.AuctionList[j]))
+//@ loop 3 invariant forall(i, int, forall(j, int, 0 <= i && i < j && j < idx ==> gs.AuctionList[i].Id != gs.AuctionList[j].Id))
+//@ loop 3 invariant forall(k, uint64, has(auctionIdMap, k) == exists(j, int, 0 <= j && j < idx && k == gs.AuctionList[j].Id))
+//@ loop 3 invariant genesisValidAB(gs) && genesisValidVQ(gs) && genesisValidBids(gs)
